@@ -17,6 +17,33 @@ def plausible_reads(batches, info, upto_op):
             else: poss.setdefault(k, {None}).add(v)      # failed write: may or may not be visible
     return poss
 
+def latch_case(evs, ops, calls, fail):
+    """The session in which the FIRST injected fault hit an append or fsync of the write-ahead log inside a
+    write call, as a case for the extracted model of the write path's error latch (WriteLatch.v):
+    returns (case string, observed acknowledgement string, op indices) or None when the fault was elsewhere."""
+    if int(fail.split(':')[3]) == 2: return None                 # a short but successful write is not a failure
+    cur = None; hit = None
+    for e in evs:
+        if e['k'] == 'A': cur = e['call']
+        elif e['k'] == 'Z': cur = None
+        elif e['k'] == 'F': hit = (e, cur); break
+    if hit is None: return None
+    e, c = hit
+    if c is None or c >= len(ops) or not ops[c].startswith('batch ') or not e['name'].endswith('.log'): return None
+    if e['what'] not in ('write', 'fsync'): return None
+    sync = lambda i: ops[i].split(' ')[-1] == '1'
+    if e['what'] == 'fsync' and not sync(c): return None
+    start = max(i for i in range(c + 1) if ops[i] in ('open', 'reopen'))
+    end = min([i for i in range(c + 1, len(ops)) if ops[i] == 'reopen'] + [len(ops)])
+    idx = [i for i in range(start + 1, end) if ops[i].startswith('batch ')]
+    if any(i >= len(calls) or calls[i]['ret'] is None for i in idx): return None      # run died: reported as crash/hang
+    parts = []
+    for i in idx:
+        if i != c: parts.append('%d:o:1' % sync(i))
+        elif e['what'] == 'fsync': parts.append('1:o:0')
+        else: parts.append('%d:%s:1' % (sync(i), 'p' if int(fail.split(':')[3]) == 1 else 'n'))
+    return (','.join(parts), ''.join('1' if calls[i]['ret'] == '0' else '0' for i in idx), idx, idx.index(c))
+
 def one_fault_run(args):
     k3, k2, work, opts, ops, batches, fail, tag = args
     os.makedirs(work, exist_ok=True)
@@ -75,7 +102,11 @@ def one_fault_run(args):
         elif k3lib.apply_batches(batches, present) != content or not present <= issued:
             problems.append(dict(where, kind='contents-not-whole-batches', variant=variant))
     shutil.rmtree(work, ignore_errors=True)
-    return {'problems': problems, 'injected': injected, 'acked': len(acked), 'failed_writes': len(issued - acked)}
+    try:
+        latch = latch_case(evs, ops, calls, fail) if rc == 0 else None
+    except Exception:
+        latch = None
+    return {'problems': problems, 'injected': injected, 'acked': len(acked), 'failed_writes': len(issued - acked), 'latch': latch}
 
 def multi_output_history(rng, opts):
     """A history whose manual compactions write SEVERAL output tables each: a 4 MiB write buffer, ~2.6 MB of
@@ -189,6 +220,28 @@ def run(rep, tier, seed):
             if reported < 3 or sig:
                 if rep.violation({'kind': 'K3-fault-' + p['kind'], 'problem': p, 'options': job[3], 'history': job[4], 'fail': job[6]}, signature=None):
                     reported += 1
+    # the write path's error latch: the real acknowledgements of the session in which a log append / fsync failed
+    # must be those of the extracted model (Properties_C12: reported, latched, OK... up to the failing call only)
+    lat = [(job, r['latch']) for job, r in zip(jobs, results) if r.get('latch')]
+    if lat:
+        mo = vlib.run_lines(vlib.ensure_model(), ['latch_case ' + (l[0] or '.') for _, l in lat])
+        nbad = 0
+        for (job, l), m in zip(lat, mo):
+            want = dict(x.split('=') for x in m.split(' ') if '=' in x).get('acks')
+            if want == l[1]: continue
+            nbad += 1
+            if nbad > 3: continue
+            at = l[3]
+            # the failing call itself acknowledged: an unreported I/O failure (a concrete violation); any other
+            # difference is a disagreement with the proved model of ldb_write whose damage the reopen oracles decide
+            concrete = l[1][at] == '1' or any(p['kind'] == 'acked-lost' for p in results[jobs.index(job)]['problems'])
+            rep.violation({'kind': 'latch-vs-model', 'problem': {'kind': 'failure-not-reported' if l[1][at] == '1' else 'acks-differ-from-model',
+                           'model_acks': want, 'real_acks': l[1], 'session_write_ops': l[2], 'failing_write': l[2][at], 'model_line': m},
+                           'options': job[3], 'history': job[4], 'fail': job[6],
+                           'theorems': ['C12_failing_write_is_reported_and_latched', 'C12_session_acks_shape']},
+                          suffix='' if concrete else 'no-failing-input-found')
+    rep.cov['latch_sessions_compared_with_model'] = len(lat)
+    rep.cov['latch_sessions_by_fault'] = {k: sum(1 for _, l in lat if (':' + k + ':') in l[0] or (k == 'fsync' and '1:o:0' in l[0])) for k in ('p', 'n', 'fsync')}
     rep.cov['fault_runs_with_injection'] = inj
     rep.cov['input_distribution'] = hist
     rep.cov['fault_sites_per_history'] = sites
